@@ -294,6 +294,68 @@ func main() {
 		emit("both", ops, "")
 	}
 
+	// 1c'. Redis with its clock moved (FastForward 2 h) in the middle: what an operation stored - value, version AND
+	//      expiration, also "no expiration" over a record that had one - is what the later operations find
+	ntime := 120
+	if thorough {
+		ntime = 2000
+	}
+	for i := 0; i < ntime; i++ {
+		r := prng.New(fl.Seed, "C03time", uint64(i))
+		var ops []kvx.Op
+		n := r.Range(4, 9)
+		at := r.Range(2, n-1)
+		for j := 0; j < n; j++ {
+			if j == at {
+				ops = append(ops, kvx.Op{K: "A", D: 2 * 3600 * 1000})
+			}
+			o := randomOp(r, keysE[:3], patsE)
+			if j < at && (o.K == "C" || o.K == "P" || o.K == "S" || o.K == "N") && r.Chance(1, 2) {
+				// writes before the jump: expirations of one and of three hours, and none
+				e := prng.Pick(r, []string{"1h", "3h", ""})
+				o.Exp = e
+				for x := range o.Recs {
+					o.Recs[x].Exp = prng.Pick(r, []string{"1h", "3h", ""})
+				}
+			}
+			ops = append(ops, o)
+		}
+		emit("redis", ops, "")
+	}
+
+	// 1c''. directed: a record with an expiration is rewritten WITHOUT one (and the other way round) through every
+	//       writing method, then the Redis clock jumps past the first expiration: the last write decides
+	for _, first := range []string{"1h", ""} {
+		second := "1h"
+		if first == "1h" {
+			second = ""
+		}
+		for w1 := 0; w1 < 3; w1++ {
+			for w2 := 0; w2 < 3; w2++ {
+				var ops []kvx.Op
+				switch w1 {
+				case 0:
+					ops = append(ops, kvx.Op{K: "C", Key: "a", Val: 1, Exp: first})
+				case 1:
+					ops = append(ops, kvx.Op{K: "P", Key: "a", Val: 1, Exp: first})
+				default:
+					ops = append(ops, kvx.Op{K: "N", Recs: []kvx.RecIn{{Key: "b", Val: 1}, {Key: "a", Val: 1, Exp: first}}})
+				}
+				switch w2 {
+				case 0:
+					ops = append(ops, kvx.Op{K: "P", Key: "a", Val: 2, Exp: second})
+				case 1:
+					ops = append(ops, kvx.Op{K: "S", Key: "a", Val: 2, Exp: second, Ver: "cur"})
+				default:
+					ops = append(ops, kvx.Op{K: "N", Recs: []kvx.RecIn{{Key: "a", Val: 2, Exp: second}, {Key: "b", Val: 3, Exp: first}}})
+				}
+				ops = append(ops, kvx.Op{K: "G", Key: "a"}, kvx.Op{K: "A", D: 2 * 3600 * 1000}, kvx.Op{K: "G", Key: "a"},
+					kvx.Op{K: "M", Keys: []string{"b", "a"}}, kvx.Op{K: "L", Pat: "*"}, kvx.Op{K: "C", Key: "a", Val: 3}, kvx.Op{K: "D", Key: "a"})
+				emit("redis", ops, "")
+			}
+		}
+	}
+
 	// 1d. tight runs: several hundred Puts back to back, every returned version is compared (all different, none
 	//     seen before), then the versions are read back and used
 	ntight := 8 // versions are unary numbers in Coq: a run of n costs about n^3, so runs stay just above 256
